@@ -13,12 +13,23 @@
       The history is run on `Prim.exec`'s step function with the `pinned` implementation; the model
       observation is what the six entry points answer on cell k afterwards.
     c09 hist gen … / c09 frame …   echoed (frame: the model's answer is the constant `frame:same`)
+    c09 cpx <family> <GoType> <key=value>* | <input> @ <projected observation>
+      A schema of a complex-path type (ParseComplex / ParseComplexStrict and the four type-local pairs). The line carries what
+      the `Cpx` model is parametric in, read off the REAL schema and the REAL validator:
+        ps=0/1 (R is a pointer)  ptv=0/1 (the pointer extractor takes values)  opt= nil= nonopt= (internals)  dv= df= pv= pf=
+        (`v:<canon>` of DefaultValue / DefaultFunc() / PrefaultValue / PrefaultFunc(), `-` = unset)  checks=<o|p>* (overwrite / other)
+        strict=0/1 (the input is of StrictParse's parameter type)  in=nil|nilx|val|ptr|ill (untyped nil / typed nil / what the
+        extractors answer)  self=<canon of the input>  r.in= r.pv= r.pf= (what the type's validator answers on the input / the
+        prefault value: the unmodified schema's projected answer without the pointer of its R, `-` = not asked)
+      The six predictions are `TypeLocal.famSix` = `Cpx.six (famParse …) (famStrict …)`: through `Cpx.parse`, `Cpx.strictParse`,
+      `TypeLocal.file…/func…/struct…`, `Cpx.must`, `Cpx.fwd`. Errors are projected to `code@path` lists (no message texts).
   Output "<model observation>\t<spec verdict>": the spec verdict echoes the observation when all entry
   points agree (Parse = ParseAny = MustParse = MustParseAny, and StrictParse = MustStrictParse = Parse
   when applicable); for `gen` lines (types whose engine path is not modelled) the model echoes too.
 -/
 import Gozod.Model.Prim
 import Gozod.Model.Str
+import Gozod.Model.TypeLocal
 import Gozod.Drv.C10
 import Gozod.Gen.EntryPoints
 namespace Gozod.Drv.C09
@@ -136,16 +147,33 @@ def hasMustParseAny (goType : String) : Bool :=
   | none => false
   | _ => true
 
+/-- An `Out` as the `(R, error)` pair of an entry point: the two `ok` forms are results, the rest errors. -/
+def outExc : Out Bytes → Except (Out Bytes) (Out Bytes)
+  | .okVal v => .ok (.okVal v)
+  | .okNil => .ok .okNil
+  | e => .error e
+
+def renderExcP : Except (Out Bytes) (Out Bytes) → String
+  | .ok r => renderOut r
+  | .error e => renderOut e
+
+def renderOutcP : Cpx.Outcome (Out Bytes) (Out Bytes) → String
+  | .returned r => renderOut r
+  | .panicked e => renderOut e
+
+/-- The six entry points of a primitive schema: `Parse` = `Prim.parse`, `StrictParse` = `Prim.strictParse`, the other four
+    assembled by `Cpx.six` (fwd / must wrappers). -/
 def observe (i : SI) (x : Input Bytes) (mpa : Bool := true) : String :=
-  let p := renderOut (parse Str.env i x)
+  let r := Cpx.six (fun y => outExc (parse Str.env i y)) (fun y => outExc (strictParse Str.env i y)) x
   let strictOk : Bool := match x with
     | .val _ => !i.ptrSchema
     | .ptr _ => i.ptrSchema
     | .nilPtr => i.ptrSchema
     | _ => false
-  let s := if strictOk then renderOut (strictParse Str.env i x) else "n/a"
-  let ma := if mpa then p else "n/a"
-  s!"P={p};S={s};A={p};MP={p};MS={s};MA={ma}"
+  let s := if strictOk then renderExcP r.s else "n/a"
+  let ms := if strictOk then renderOutcP r.ms else "n/a"
+  let ma := if mpa then renderOutcP r.ma else "n/a"
+  s!"P={renderExcP r.p};S={s};A={renderExcP r.a};MP={renderOutcP r.mp};MS={ms};MA={ma}"
 
 /-- `byCtor`: a refinement lets nil pass when the checks were attached to the pointer constructor (strings); for integers
     (`false`) it never does: `ZodIntegerTyped.Refine` asks the receiver's `IsNilable()` at attachment, and the recipes attach
@@ -167,6 +195,138 @@ def handleHistStr (ck : CloneKind) (goType : String) (body input : String) (byCt
     let x ← parseInput input.trimAscii.toString
     pure (observe c.cfg x (hasMustParseAny goType) ++ ";H=ok")
   | _ => none
+
+/-! ## `c09 cpx`: the complex engine path and the type-local pairs, run through `Cpx` / `TypeLocal` -/
+section CpxRun
+open Gozod.Cpx Gozod.TypeLocal
+
+abbrev CV := String      -- a value: its canonical rendering, or a marker (`$in`, `$pv`, `$pf`) for a value only the run knows
+abbrev CE := String      -- an error: its projection `err:<code@path,…>`
+
+def kvs (toks : List String) : List (String × String) :=
+  toks.filterMap fun t =>
+    match t.splitOn "=" with
+    | k :: rest@(_ :: _) => some (k, "=".intercalate rest)
+    | _ => none
+
+def kvGet (kv : List (String × String)) (k : String) : Option String := (kv.find? (·.1 == k)).map (·.2)
+
+def optVal (s : Option String) : Option CV :=
+  match s with
+  | some v => if v.startsWith "v:" then some (v.drop 2).toString else none
+  | none => none
+
+/-- What the validator answered (`ok:<canon>` / `ok:&<canon>` / `err:…`), as the model's `Except`. -/
+def oracleRes (s : String) : Except CE CV :=
+  if s.startsWith "ok:" then .ok (s.drop 3).toString else .error s
+
+def typeErrP : CE := "err:invalid_type@[]"
+def nonOptErrP : CE := "err:invalid_type@[]:nonoptional"
+
+/-- The environment of a `cpx` line: the validator is the table the line carries; the harness' Overwrite is the identity
+    (`checksOnDefault` hands the default on, `checksOnNil` nil, no separate pointer pass); no engine-level Transform is
+    reachable through the public API. -/
+def cpxEnv (kv : List (String × String)) : CEnv Unit Unit Unit CV CE where
+  validate := fun _ v =>
+    match kvGet kv ("r." ++ (v.drop 1).toString) with
+    | some r => if r == "-" then .error "err:?validator-not-asked" else oracleRes r
+    | none => .error "err:?validator-not-asked"
+  firstPass := fun _ _ => none
+  checksOnDefault := fun _ d => .val d
+  checksOnNil := fun _ => .nil
+  trans := fun _ r => r
+  typeErr := typeErrP
+  nonOptErr := nonOptErrP
+
+def cpxChecks (s : String) : List (Check Unit Unit) :=
+  s.toList.filterMap fun ch =>
+    if ch == 'o' then some (.overwrite ()) else if ch == 'p' then some (.pred () false none) else none
+
+def cpxCfg (kv : List (String × String)) : CCfg Unit Unit Unit CV :=
+  let b := fun k => kvGet kv k == some "1"
+  { i := { checks := cpxChecks ((kvGet kv "checks").getD ""), ptrSchema := b "ps", optional := b "opt", nilable := b "nil",
+           nonOptional := b "nonopt", dv := optVal (kvGet kv "dv"), df := optVal (kvGet kv "df"),
+           pv := (optVal (kvGet kv "pv")).map fun _ => "$pv", pf := (optVal (kvGet kv "pf")).map fun _ => "$pf" },
+    ptrExTakesValues := b "ptv" }
+
+def cpxIn (c : CCfg Unit Unit Unit CV) (kind : String) : Option (CIn CV) :=
+  match kind with
+  | "nil" => some { isNil := true, untyped := true, ptrEx := none, typEx := none }
+  | "nilx" => some { isNil := true, untyped := false, ptrEx := some none, typEx := none }
+  | "val" => some (inOfVal c "$in")
+  | "ptr" => some { isNil := false, untyped := false, ptrEx := some (some "$in"), typEx := none }
+  | "ill" => some { isNil := false, untyped := false, ptrEx := none, typEx := none }
+  | _ => none
+
+def cpxFam : String → Option Fam
+  | "slice" => some .slice | "viaParse" => some .viaParse | "file" => some .file
+  | "function" => some .function | "struct" => some .struct
+  | _ => none
+
+/-- The family the regenerated table gives the Go type (so a re-routed `StrictParse` changes the prediction too). -/
+def famOfTable (goType : String) : Option Fam :=
+  let parseIsComplex : Bool := match EntryPoints.Table.find Gen.EntryPoints.table goType "Parse" with
+    | some (.engine "ParseComplex" _ _ _ _ _) => true
+    | _ => false
+  if !parseIsComplex then none else
+  match EntryPoints.classify Gen.EntryPoints.table goType with
+  | .complex _ => some .slice
+  | .viaParse => some .viaParse
+  | .typeLocal _ _ =>
+    if goType == "ZodFile" then some .file else if goType == "ZodFunction" then some .function
+    else if goType == "ZodStruct" then some .struct else none
+  | _ => none
+
+/-- ZodStruct's error rewrite under the projection: a single root-level invalid_type issue is replaced by what
+    `createStructTypeError(input, ctx)` builds — a single root-level `custom` issue naming both Go types, or, for an untyped
+    nil input (no Go type to name), the engine's invalid_type issue again. -/
+def cpxStructErr (untyped : Bool) : StructErr CE :=
+  { looksLikeTypeErr := fun e => e == typeErrP, rewritten := if untyped then typeErrP else "err:custom@[]",
+    conversionErr := "err:?conversion" }
+
+def showV (kv : List (String × String)) (v : CV) : String :=
+  if v.startsWith "$" then
+    match kvGet kv ("self." ++ (v.drop 1).toString) with
+    | some s => (s.drop 2).toString
+    | none => v
+  else v
+
+/-- A value's text starts with `&` when the value itself is a Go pointer (a file): a pointer to it shows one `&` as well. -/
+def dropAmp (s : String) : String := if s.startsWith "&" then (s.drop 1).toString else s
+
+def renderRes (kv : List (String × String)) : Cpx.Res CV CE → String
+  | .val v => "ok:" ++ showV kv v
+  | .ptr v => "ok:&" ++ dropAmp (showV kv v)
+  | .nilPtr => "ok:nil"
+  | .nil => "ok:nil"
+  | .err e => e
+
+def renderExc (kv : List (String × String)) : Except CE (Cpx.Res CV CE) → String
+  | .ok r => renderRes kv r
+  | .error e => e
+
+def renderOutc (kv : List (String × String)) : Outcome (Cpx.Res CV CE) CE → String
+  | .returned r => renderRes kv r
+  | .panicked e => e
+
+def handleCpx (toks : List String) : Option String := do
+  match toks with
+  | famTok :: goType :: rest =>
+    let kv := kvs rest
+    let fam ← cpxFam famTok
+    -- the family named by the harness must be the one the regenerated table gives the type
+    if famOfTable goType != some fam then none else
+    let c := cpxCfg kv
+    let x ← cpxIn c ((kvGet kv "in").getD "")
+    let r := famSix (cpxStructErr x.untyped) fam (cpxEnv kv) c x
+    let strict := kvGet kv "strict" == some "1"
+    let s := if strict then renderExc kv r.s else "n/a"
+    let ms := if strict then renderOutc kv r.ms else "n/a"
+    let ma := if hasMustParseAny goType then renderOutc kv r.ma else "n/a"
+    pure s!"P={renderExc kv r.p};S={s};A={renderExc kv r.a};MP={renderOutc kv r.mp};MS={ms};MA={ma}"
+  | _ => none
+
+end CpxRun
 
 /-- `c09 table`: the rows of the regenerated entry-point table the expectation does not cover. -/
 def tableReport : String :=
@@ -190,6 +350,10 @@ def handleLine (line : String) : String :=
   match lhs.splitOn " | " with
   | [schema, input] =>
     match (schema.splitOn " ").filter (· ≠ "") with
+    | "c09" :: "cpx" :: toks =>
+      match handleCpx toks with
+      | some m => m ++ "\t" ++ spec
+      | none => "bad-op"
     | "c09" :: "gen" :: _ => (impl.getD "-") ++ "\t" ++ spec
     | "c09" :: "ill" :: _ => (impl.getD "-") ++ "\t" ++ spec
     | "c09" :: "hist" :: "gen" :: _ => (impl.getD "-") ++ "\t" ++ spec
@@ -223,15 +387,7 @@ def handleLine (line : String) : String :=
               else (unhex inTok).map .val
             match inp with
             | none => "bad-op"
-            | some x =>
-              let p := renderOut (parse Str.env i x)
-              let strictOk : Bool := match x with
-                | .val _ => !i.ptrSchema
-                | .ptr _ => i.ptrSchema
-                | .nilPtr => i.ptrSchema
-                | _ => false
-              let s := if strictOk then renderOut (strictParse Str.env i x) else "n/a"
-              s!"P={p};S={s};A={p};MP={p};MS={s};MA={p}" ++ "\t" ++ spec
+            | some x => observe i x ++ "\t" ++ spec
         | _ => "bad-op"
       | _ => "bad-op"
     | _ => "bad-op"
